@@ -465,6 +465,15 @@ func surgery(text string, m map[string]json.RawMessage) []variant {
 		out = append(out, variant{"{" + `"ext":{` + string(mustJSON(k)) + `:` + string(m[k]) + `},` + build(mm, keys, "")[1:], "nested-in-ignored-object:" + k})
 		out = append(out, variant{build(mm, keys, `"ext":[{`+string(mustJSON(k))+`:`+string(m[k])+`}]`), "nested-in-ignored-array:" + k})
 		out = append(out, variant{build(mm, keys, `"note":`+string(mustJSON(string(mustJSON(k))+":"+string(m[k])))), "quoted-in-ignored-string:" + k})
+		// the member is gone, and a string VALUE of another member spells its name
+		for _, holder := range []string{"reqUser", "transID", "reqHost"} {
+			if holder == k {
+				continue
+			}
+			mm2 := clone(mm)
+			mm2[holder] = json.RawMessage(mustJSON(k))
+			out = append(out, variant{build(mm2, keys, ""), "named-by-a-string-value:" + k})
+		}
 		// case renames
 		for _, nk := range []string{strings.ToUpper(k), strings.ToLower(k), strings.ToUpper(k[:1]) + k[1:]} {
 			if nk == k {
